@@ -2,7 +2,7 @@
 from vf import Query
 from common import R_ASSUME, ENV_MODEL
 
-UNITS = ['repo:lib/srfi/151/bit.c', 'repo:bignum.c', 'kit:env.c']
+UNITS = ['repo:lib/srfi/151/bit.c', 'repo:bignum.c', 'kit:env.c', 'kit:libc_models.c']
 OPS = {'and': 1, 'ior': 2, 'xor': 3}
 FUNCTIONS = ['sexp_bit_and', 'sexp_bit_ior', 'sexp_bit_xor', 'sexp_arithmetic_shift', 'sexp_bit_count',
              'sexp_integer_length', 'sexp_bit_set_p', 'sexp_set_twos_complement', 'sexp_twos_complement',
